@@ -46,9 +46,23 @@ def known_nonnull(facts, e) -> bool:
     return False
 
 
-def _attr_may_be_none(prog, cls, attr):
+def _attr_may_be_none(prog, cls, attr, initialisers=None):
+    """Is `self.<attr> = None` written anywhere in the class family?  With `initialisers` ({class qual: method names} - the
+    documented first operation of a store, which every history starts with), a None written by `__init__` does not count
+    if such a method stores a non-None value into the attribute on every normal path."""
+    init_sets = False
+    for k in prog.mro(cls):
+        for name in (initialisers or {}).get(k.qual, ()):
+            m = k.methods.get(name)
+            if m is not None:
+                fa = FA(m)
+                st = fa.find(lambda x: isinstance(x, ast.Assign) and not _is_none(x.value) and any(isinstance(t, ast.Attribute) and isinstance(t.value, ast.Name) and t.value.id == "self" and t.attr == attr for t in x.targets))
+                if st and fa.cfg.every_exit_path_passes(fa.cfg.entry, st):
+                    init_sets = True
     for k in [cls] + prog.subclasses(cls) + prog.mro(cls):
-        for m in k.methods.values():
+        for m in list(k.methods.values()) + list(getattr(k, 'setters', {}).values()):
+            if init_sets and m.name == "__init__":
+                continue
             for s in walk_no_nested(m.node):
                 if isinstance(s, ast.Assign) and _is_none(s.value) and any(isinstance(t, ast.Attribute) and isinstance(t.value, ast.Name) and t.value.id == "self" and t.attr == attr for t in s.targets):
                     return True
@@ -175,4 +189,32 @@ def scan(prog):
                 # the load inside it is judged at its own call site
                 continue
             out.append((f, c, not mb, f"`{src(c)[:80]}`" + (f": {why}" if mb else "")))
+    return out
+
+
+def index_uses(prog, initialisers=None):
+    """[(function, subscript, ok, detail)]: every `X[self.a]` in the package.  numpy reads a None index as np.newaxis - the
+    result silently gains an axis instead of failing - so an attribute that is None anywhere in its class is used as an
+    index only where the guards of the use exclude None."""
+    out = []
+    for f in prog.all_functions:
+        if f.cls is None:
+            continue
+        fa = None
+        for s in walk_no_nested(f.node):
+            if not (isinstance(s, ast.Subscript) and isinstance(s.ctx, ast.Load) and isinstance(s.slice, ast.Attribute) and isinstance(s.slice.value, ast.Name) and s.slice.value.id == "self"):
+                continue
+            a = s.slice.attr
+            if not _attr_may_be_none(prog, f.cls, a, initialisers):
+                out.append((f, s, True, f"`{src(s)[:70]}`: `self.{a}` is never None in {f.cls.name}"))
+                continue
+            fa = fa or FA(f)
+            nid = [i for i, e in fa.find_expr(lambda e: e is s)]
+            ok = bool(nid) and known_nonnull(guard_facts(fa, nid[0]), s.slice)
+            if not ok and nid:
+                # ... or a non-None store earlier in the same function on every path
+                for sid in fa.find(lambda x: isinstance(x, ast.Assign) and not _is_none(x.value) and any(src(t) == src(s.slice) for t in x.targets)):
+                    if sid != nid[0] and fa.dominates(sid, nid[0]):
+                        ok = True
+            out.append((f, s, ok, f"`{src(s)[:70]}`" + ("" if ok else f": `self.{a}` can be None here (it is assigned None in {f.cls.name}); numpy treats a None index as a new axis")))
     return out
